@@ -297,6 +297,8 @@ def named_output(F, rep, rid="C19-R6"):
 
 
 def run(F, rep, tier):
+    from .rules_c03 import written_steps
+    written_steps(F, rep, "C19-R7")   # every output file is labelled on the same time axis
     named_output(F, rep)
     r1_r2(F, rep)
     r3(F, rep)
